@@ -792,3 +792,57 @@ func deepNestedCase(r *rand.Rand) (*Grid, [][]Pt, int, bool) {
 	}
 	return nil, nil, 0, false
 }
+
+// microGrid: a synthetic quadtree set whose deepest pixel measures 1e-7 units (degrees, say): every distance inside a
+// polygon of a few pixels is far below any "reasonable" absolute tolerance (1e-6), while the pixel itself is 1000 integer
+// units, so nothing is below the tool's resolution.  Decimal: valid polygons only.
+var microGridCache *Grid
+
+func microGrid() *Grid {
+	if microGridCache == nil {
+		g, err := newSyntheticGrid(2, 16e-7, 0, 0)
+		if err != nil {
+			panic(err)
+		}
+		g.Dyadic = false
+		microGridCache = g
+	}
+	return microGridCache
+}
+
+// genMicroNested: on the micro grid a square shell of about eight pixels with a square hole (as many vertices as the
+// shell) and a triangular hole, each several pixels wide, none collapsing: rings of equal vertex count whose
+// corresponding vertices are a few 1e-7 apart, so code that compares coordinates or rings with an absolute tolerance
+// takes the hole for the shell
+func genMicroNested(r *rand.Rand, g *Grid) ([][]Pt, bool) {
+	P := g.Res
+	size := int64(1) << g.Deep
+	if size < 14 {
+		return nil, false
+	}
+	bx, by := 1+r.Int63n(size-12), 1+r.Int63n(size-12)
+	f := 8 + r.Int63n(48)
+	X := func(px, fr int64) int64 { return g.Ext[0] + (bx+px)*P + P*fr/64 }
+	Y := func(px, fr int64) int64 { return g.Ext[1] + (by+px)*P + P*fr/64 }
+	shell := []Pt{{X(0, f), Y(0, f)}, {X(9, f), Y(0, f)}, {X(9, f), Y(9, f)}, {X(0, f), Y(9, f)}}
+	sq := []Pt{{X(1, f), Y(1, f)}, {X(1, f), Y(4, f)}, {X(4, f), Y(4, f)}, {X(4, f), Y(1, f)}}
+	tri := []Pt{{X(5, f), Y(5, f)}, {X(6, f), Y(8, f)}, {X(8, f), Y(5, f)}}
+	poly := [][]Pt{shell, sq, tri}
+	if r.Intn(2) == 0 {
+		poly = [][]Pt{shell, tri, sq}
+	}
+	for _, ring := range poly {
+		for k := range ring {
+			x, ok1 := fixRoundTrip(ring[k][0])
+			y, ok2 := fixRoundTrip(ring[k][1])
+			if !ok1 || !ok2 {
+				return nil, false
+			}
+			ring[k] = Pt{x, y}
+		}
+	}
+	if !g.inGrid(poly) || !validPolygon(poly) {
+		return nil, false
+	}
+	return poly, true
+}
